@@ -215,8 +215,8 @@ class IsarParser(object):
         def collect():
             try:
                 root = ElementTree.fromstring(content)
-            except ValueError as e:
-                """ e.g. a declared encoding that expat cannot handle """
+            except (ValueError, LookupError) as e:
+                """ e.g. a declared encoding that expat cannot handle, or an unknown one """
                 raise model.ParseError([(path, str(e))])
             for xml_elem in root.iterfind('.//*[@href]'):
                 yield make_include(xml_elem, process_file, self.warn)
